@@ -8,12 +8,13 @@ On break: boundary-operand search through the regenerated AST vs Spec, replayed 
 import os
 import vlib
 import runtime_ops as ro
+import opmods
 from common import prove, leanchecker
 from vlib import log
 
 PROP = "C01"
-MODULES = ["W2c2Verif.Props.C01", "W2c2Verif.Props.C01Fallback"]
-GENS = [("Macros", "gen_macros")]
+MODULES = ["W2c2Verif.Props.C01", "W2c2Verif.Props.C01Fallback", "W2c2Verif.Props.C01Ops"]
+GENS = [("Macros", "gen_macros"), ("EmitTable", "gen_emit")]
 
 
 def spec_line(op, vals):
@@ -94,6 +95,38 @@ def run(tier):
             if real and model and not ro.same_result(real[i], model[i]):
                 broken.append({"kind": "correspondence", "msg": f"runtime-ops: `{lines[i]}` real `{real[i]}` model `{model[i]}`"})
         chk.coverage["op_histogram"] = hist
+        # ---- end-to-end per opcode: real w2c2 -> gcc  vs  model of the emitted statement  vs  Spec.numOp
+        nops = [o for o in opmods.numeric_ops() if opmods.is_int_op(o)]
+        try:
+            oexe, oc = opmods.build_harness(repo, d, nops)
+        except Exception as e:
+            broken.append({"kind": "e2e-build", "msg": str(e)[-1500:]})
+            oexe = None
+        if oexe:
+            ecases = []
+            for op in nops:
+                bs = [ro.boundary(t) for t in op[2]]
+                if len(bs) == 1:
+                    ecases += [(op, (v,)) for v in bs[0]]
+                else:
+                    small = [b for b in bs[1] if b < 70] + [bs[1][-1], 1 << (ro.WIDTH[op[2][1]] - 1)]
+                    ecases += [(op, (x, y)) for x in bs[0][::6] + [0, bs[0][-1], 1 << (ro.WIDTH[op[2][0]] - 1)] for y in small[::2] + [0, small[-2], small[-1]]]
+                ecases += [(op, tuple(ro.rand_val(chk.rng, t) for t in op[2])) for _ in range(n_random // 3)]
+            elines = [opmods.line_for(o, v) for o, v in ecases]
+            ereal = ro.run_lines(oexe, elines)
+            emodel = vlib.DriverProc().batch(elines) if pr["driver_ok"] else None
+            espec = vlib.DriverProc().batch([opmods.spec_line_for(o, v) for o, v in ecases]) if pr["driver_ok"] else None
+            for i, (op, vals) in enumerate(ecases):
+                chk.count_case(("e2e", op[0], vals), True,
+                               {"line": elines[i], "real": ereal[i], "spec": espec[i] if espec else None} if i % max(1, len(ecases) // 6) == 0 else None)
+                if espec and not ro.same_result(ereal[i], espec[i]):
+                    chk.violation(f"{op[1]}-e2e-real-vs-spec",
+                                  f"{op[1]}: output of the real w2c2 compiled by gcc returns `{ereal[i]}`, the specification requires `{espec[i]}`",
+                                  {"line": elines[i], "real": ereal[i], "spec": espec[i], "kind": "e2e"}, True)
+                if emodel and not ro.same_result(ereal[i], emodel[i]):
+                    broken.append({"kind": "correspondence", "msg": f"e2e: `{elines[i]}` real `{ereal[i]}` model `{emodel[i]}`"})
+            chk.coverage["e2e_cases"] = len(ecases)
+            chk.coverage["emitted_statements_sample"] = dict(list(opmods.emitted_statements(oc, nops).items())[:8])
         chk.coverage["traces_validated_against_impl"] = len(cases) if real else 0
     if tier == "thorough" and pr["build_ok"]:
         bad = leanchecker(chk, MODULES)
@@ -115,7 +148,10 @@ def replay(path):
     chk = vlib.Check(PROP, "quick")
     with vlib.scratch("c01r-") as d:
         repo = vlib.copy_repo(os.path.join(d, "repo"))
-        exe = ro.build(repo, d, ro.int_ops())
+        if r.get("kind") == "e2e":
+            exe, _ = opmods.build_harness(repo, d, [o for o in opmods.numeric_ops() if opmods.is_int_op(o)])
+        else:
+            exe = ro.build(repo, d, ro.int_ops())
         out = ro.run_lines(exe, [r["line"]])[0]
     print(f"replay {r['line']!r}: real `{out}`, specification `{r.get('spec')}`")
     return 0 if ro.same_result(out, r.get("spec", "")) else 1
